@@ -32,6 +32,12 @@ fn main() {
                 writeln!(out, "{}", gram::front(&line)).unwrap();
             }
         }
+        "gen" => {
+            for line in stdin.lock().lines() {
+                let line = line.unwrap();
+                writeln!(out, "{}", gram::generate(&line)).unwrap();
+            }
+        }
         "vm" => {
             for line in stdin.lock().lines() {
                 let line = line.unwrap();
